@@ -1,7 +1,8 @@
 (* Props/C17.v — History and status tell the truth about the ledger.
    Only statements, each closed by [exact]; proofs live in Lemmas/. *)
 From Model Require Import Examples.
-From Lemmas Require Import StatusLemmas LedgerLemmas HistoryLemmas HistoryLemmas2 HistoryLemmas3 HistoryLemmas4.
+From Model Require Import Api.
+From Lemmas Require Import StatusLemmas LedgerLemmas HistoryLemmas HistoryLemmas2 HistoryLemmas3 HistoryLemmas4 ApiLemmas.
 From Corr Require Import Chain.
 Open Scope Z_scope.
 
@@ -29,6 +30,53 @@ Theorem C17_paging_exact : forall (A : Type) (l : list A) (lim : nat), (0 < lim)
 Proof. exact @paging_exact. Qed.
 Print Assumptions C17_paging_exact.
 
+
+(* ---- the history queries of the API (Model/Api.v: historyQueryBuilder / historySelectHelper) -------------------------
+   [hist_wf s]: one batch row per hash, the primary keys of the transaction and lookup tables, every lookup row has its
+   transaction row and every transaction row its batch row.  Under it the count the API reports is the number of actions
+   the data query yields, for every field, filter and order ... *)
+Theorem C17_api_count_is_the_number_of_actions : forall s q, hist_wf s -> query_count s q = length (query_all s q).
+Proof. exact count_is_length. Qed.
+Print Assumptions C17_api_count_is_the_number_of_actions.
+(* ... following the pages from offset 0 (LIMIT 50, next offset while below the count) returns every matching action
+   exactly once, in order, nothing twice and nothing left out ... *)
+Theorem C17_api_pages_return_everything_once : forall s q fuel,
+  hist_wf s -> (S (length (query_all s q)) <= fuel)%nat -> walk_pages fuel s q 0 = query_all s q.
+Proof. exact walk_pages_all_wf. Qed.
+Print Assumptions C17_api_pages_return_everything_once.
+(* ... a query by entry hash returns exactly the recorded actions of that entry ... *)
+Theorem C17_api_by_hash_complete : forall s q h,
+  hist_wf s -> q_field q = ByHash h -> q_actions q = [] -> q_asset q = None -> q_txindex q = None ->
+  In h (map hb_hash (hist s)) -> query_all s q = map htx_key (filter (fun t => ht_hash t =? h) (htxs s)).
+Proof. exact hash_query_complete. Qed.
+(* ... a query by address returns exactly the actions that involve the address (have a lookup row), each once ... *)
+Theorem C17_api_by_address_exactly_once : forall s q a,
+  hist_wf s -> q_field q = ByAddress a -> q_actions q = [] -> q_asset q = None ->
+  NoDup (query_all s q) /\ forall k, In k (query_all s q) <-> In (k, a) (lookups s).
+Proof. exact address_query_exactly_once. Qed.
+Print Assumptions C17_api_by_address_exactly_once.
+(* ... a query by height the actions of the batches entered at that height, each once ... *)
+Theorem C17_api_by_height_complete : forall s q hh,
+  hist_wf s -> q_field q = ByHeight hh -> q_actions q = [] -> q_asset q = None ->
+  Permutation (query_all s q) (map htx_key (filter (at_height s hh) (htxs s))) /\ NoDup (query_all s q).
+Proof. intros s q hh Hw Hf Ha Hs. split; [exact (height_query_complete s q hh Hw Hf Ha Hs) | exact (height_query_nodup s q hh Hw Hf Ha Hs)]. Qed.
+(* ... descending order is the same set of actions, and the status look-up is the batch row's (height, executed). *)
+Theorem C17_api_desc_same_actions : forall s q, Permutation (query_all s (flip_desc q)) (query_all s q).
+Proof. exact desc_is_permutation. Qed.
+Theorem C17_api_status : forall s b, hist_wf s -> In b (hist s) -> query_status s (hb_hash b) = (hb_height b, hb_exec b).
+Proof. exact query_status_spec. Qed.
+Print Assumptions C17_api_status.
+(* "one batch row per hash" is NOT implied by the schema (UNIQUE(entry_hash, height) only): with a second batch row for a
+   hash the address count (60) falls short of the joined rows (120) and the walk omits 20 of them — the shape of the one
+   id reuse at 260118 (DESIGN.md section 15).  The check evaluates hist_wf on the final state of every chain it runs. *)
+Example C17_api_second_batch_row_breaks_paging :
+  exists s', insert_hbatch ex_dup_db (ex_b 7 101 0) = Ok s' /\
+    let q := ex_q (ByAddress 5) false in
+    query_count s' q = 60%nat /\ length (query_all s' q) = 120%nat /\
+    length (walk_pages 10 s' q 0) = 100%nat /\
+    query_all s' (ex_q (ByHash 7) false) = query_all ex_dup_db (ex_q (ByHash 7) false) ++ query_all ex_dup_db (ex_q (ByHash 7) false) /\
+    query_count ex_dup_db q = 60%nat /\ length (query_all ex_dup_db q) = 60%nat.
+Proof. exact dup_hash_breaks_count. Qed.
 
 (* ---- the credited amounts are the recorded amounts ---------------------------------------------------------
    [row_effect burn r] is what an EXECUTED history row stands for (transfer: -from_amount on the sender,
